@@ -353,6 +353,38 @@ func errCheckedCall(call *ssa.Call) (bool, string) {
 					}
 				}
 			}
+			// stored through a pointer parameter by a helper that then returns this very error on
+			// every path: the caller sees the error and is the one to discard the object
+			if st, ok := u.(*ssa.Store); ok && !guarded {
+				if fa, ok := st.Addr.(*ssa.FieldAddr); ok {
+					if _, isPar := strip(fa.X).(*ssa.Parameter); isPar {
+						okAll, any := true, false
+						after := reachableBlocks(st.Block(), nil)
+						for _, ret := range returnsOf(call.Parent()) {
+							if !after[ret.Block()] {
+								continue
+							}
+							any = true
+							n := len(ret.Results)
+							if n == 0 || strip(retOperand(ret, n-1)) != ssa.Value(errEx) {
+								// or a return under the error's nil test returning nil
+								g := false
+								for _, at := range factsAt(ret.Block()) {
+									if at.Kind == "nil" && at.X == ssa.Value(errEx) {
+										g = true
+									}
+								}
+								if !g {
+									okAll = false
+								}
+							}
+						}
+						if any && okAll {
+							guarded = true
+						}
+					}
+				}
+			}
 			if !guarded {
 				return false, fmt.Sprintf("result used at %s where the error may be non-nil", u.String())
 			}
